@@ -10,6 +10,8 @@ func init() {
 		ruleCDC6(w, r)
 		ruleCDC7(w, r)
 		ruleGRDcrc(w, r)
+		ruleCDC6b(w, r)
+		ruleGRDscan(w, r)
 	})
 }
 
@@ -19,6 +21,8 @@ func init() {
 		ruleORD2(w, r)
 		ruleORD3(w, r)
 		ruleORD7(w, r)
+		ruleORD7b(w, r)
+		ruleORD1b(w, r)
 		ruleCDC5(w, r)
 	})
 	register("C14", "no acknowledged write lost to snapshot/compaction/shutdown", func(w *World, r *Report) {
@@ -26,5 +30,16 @@ func init() {
 		ruleORD5(w, r)
 		ruleORD6(w, r)
 		ruleORD8(w, r)
+	})
+}
+
+func init() {
+	register("C05", "a rejected operation changes nothing, now or after restart", func(w *World, r *Report) {
+		ruleJRN3(w, r)
+	})
+	register("C01", "clean restart reproduces the pre-shutdown state", func(w *World, r *Report) {
+		ruleJRN12(w, r, nil)
+		ruleCDC123(w, r, nil)
+		ruleCDC4(w, r, nil)
 	})
 }
